@@ -157,7 +157,7 @@ def build_frame(ctx, op, symbolic):
         f = hf.PushPromiseFrame(parent)
         f.promised_stream_id = promised
         with h2h.native():
-            f.data = ctx.peer_enc.encode(h2h.REQ)
+            f.data = ctx.peer_enc.encode(h2h.REQ_PUSHED)
         f.flags.add('END_HEADERS')
         return f
     if t == 'CONT':
